@@ -158,19 +158,39 @@ def check_trim(ctx, cs):
             if (cl == "inside" and cnt[a][b] != 0) or (cl == "outside" and cnt[a][b] != 2):
                 ctx.violate("tessellate.TrimTessellate", tg + ["cell_" + cl], small, {"cell": [a, b], "class": cl, "triangles": cnt[a][b]})
                 return
+    # every vertex (grid vertices and the ones created where the trim crosses a cell edge) lies on the surface at its parameters
+    for v in V:
+        try:
+            uv = list(v.uv)
+            if not (0.0 <= uv[0] <= 1.0 and 0.0 <= uv[1] <= 1.0):
+                continue
+            onsurf = obj.evaluate_single(uv)
+        except Exception as e:
+            ctx.violate("tessellate.TrimTessellate", tg + ["raises", "vertex_position"], small, {"exception": repr(e)[:200]})
+            return
+        if not close_seq(list(v.data), onsurf, 1e-9):
+            ctx.violate("tessellate.TrimTessellate", tg + ["vertex_position"], small, {"uv": uv, "data": list(v.data), "surface_at_uv": onsurf})
+            return
     ids = sorted(v.id for v in V)
     used = sorted({i for f in F for i in f.vertex_ids})
     if any(i < 0 or i >= len(V) for i in used):
         ctx.violate("tessellate.TrimTessellate", tg + ["face_indices"], small, {"max": max(used), "vertices": len(V)})
 
 
-def check_exports(ctx, su, sv, s):
+def check_exports(ctx, su, sv, s, scale=1.0):
     """OBJ / OFF / STL (ascii and binary) describe exactly the tessellated mesh, with per-surface vertex offsets"""
     import struct, math
-    from geomdl import exchange, multi
-    tg = ["export", "spacing=%d" % s]
-    small = {"sample_size": [su, sv], "vertex_spacing": s}
-    for nsurf in (1, 2, 3):
+    from geomdl import exchange, multi, operations
+
+    def build(sh):          # (shadows the adapter's build inside this function) optionally a small model, e.g. millimetres in metres
+        from ..adapter import build as _b
+        o = _b(sh)
+        if scale != 1.0:
+            operations.scale(o, scale, inplace=True)
+        return o
+    tg = ["export", "spacing=%d" % s] + (["scale=%g" % scale] if scale != 1.0 else [])
+    small = {"sample_size": [su, sv], "vertex_spacing": s, "scale": scale}
+    for nsurf in ((1, 2, 3) if scale == 1.0 else (1,)):
         t2 = tg + ["container%d" % nsurf if nsurf >= 2 else "single"]
         ctx.count(("export", su, sv, s, nsurf), sample={"op": "export", **small, "surfaces": nsurf})
         try:
@@ -215,9 +235,9 @@ def check_exports(ctx, su, sv, s):
                 cr = [e1[1] * e2[2] - e1[2] * e2[1], e1[2] * e2[0] - e1[0] * e2[2], e1[0] * e2[1] - e1[1] * e2[0]]
                 ln = math.sqrt(sum(x * x for x in cr))
                 ln2 = math.sqrt(sum(x * x for x in nrm))
-                if ln < 1e-12:
+                if ln < 1e-30:
                     return True
-                if ln2 < 1e-12:
+                if ln2 < 1e-30:
                     return False
                 # same direction and orientation (any positive multiple of (v2 - v1) x (v3 - v2) is a facet normal)
                 return all(abs(cr[i] / ln - nrm[i] / ln2) < 1e-5 for i in range(3))
@@ -236,7 +256,8 @@ def check_exports(ctx, su, sv, s):
                 for k in range(n):
                     rec = struct.unpack("<12f", raw[84 + 50 * k:84 + 50 * k + 48])
                     tri = [list(rec[3:6]), list(rec[6:9]), list(rec[9:12])]
-                    if not close_seq(tri, exp_tris[k], 1e-5) or not facet_ok(list(rec[0:3]), exp_tris[k]):
+                    if not all(abs(a - b) <= 1e-5 * max(abs(b), 1e-3 * scale) for ta, tb in zip(tri, exp_tris[k]) for a, b in zip(ta, tb)) or \
+                            not facet_ok(list(rec[0:3]), exp_tris[k]):
                         ok = False
                         break
             if not ok:
@@ -310,6 +331,7 @@ def run(ctx):
         raise core.MachineryError("vacuous model: %s" % ops)
     for su, sv, s in ((3, 4, 1), (5, 3, 2), (4, 7, 3)):
         check_exports(ctx, su, sv, s)
+    check_exports(ctx, 12, 9, 1, scale=0.001)
     nv = validate_meshes(ctx, meshes) if meshes else 0
     ctx.traces = len(res.cases) + nv
     ctx.extra.update({"cases": ops, "meshes_validated_by_tlc": nv})
